@@ -10,7 +10,7 @@ LEVEL = 'exploration'
 ENGINE = 'SEQ'
 TECHNIQUE = 'exhaustive product of targets x argument shapes x return values (None, falsy, nested, custom class, 0 B .. 4 MiB crossing the pipe buffers) x exceptions x {thread, process, remote} x {constructor, Worker.create} x run flags, each executed on a real worker and compared with the direct call'
 LEVEL_TEXT = ('the full product is enumerated (no sampling); the reference is the direct call in the checker; after wait() has_error/result/error must match it (exception type and args), not-run workers are dead at once with (False, None, None) and never call the target, the target is entered exactly once, and the three kinds agree')
-LEVEL_NOTE = 'values are compared through a structural representation (bytes by length); targets defined in the main script are not covered (known defect of the remote kind, see DESIGN.md); wait() is given 20 s'
+LEVEL_NOTE = 'values are compared through a structural representation (bytes by length); definitions in the main script are covered by a separate script run as __main__ (3 modes x 3 kinds); wait() is given 20 s'
 
 
 def cases(quick):
@@ -50,6 +50,38 @@ def reference(c):
         return ('ret', _rep(f(*c['args'], **c['kwargs'])))
     except Exception as e:  # noqa
         return ('exc', _rep(e))
+
+
+def main_script_part(ctx):
+    """Target, result class and exception class defined in the main script (pwv/mainscript_case.py run as __main__)."""
+    import sys
+    import json
+    import subprocess
+    from ..core import HOME
+    expect = {'value': (False, {'MainRes': [3, 3]}, None), 'raise': (True, None, {'exc': 'MainErr', 'args': ['from-main', 3]}), 'plain': (False, 4, None)}
+    for kind in ('T', 'P', 'R'):
+        for mode in ('value', 'raise', 'plain'):
+            ctx.count()
+            ctx.distinct(('main-script', kind, mode))
+            try:
+                p = subprocess.run([sys.executable, os.path.join(HOME, 'pwv', 'mainscript_case.py'), kind, mode], stdin=subprocess.DEVNULL,
+                                   stdout=subprocess.PIPE, stderr=subprocess.DEVNULL, text=True, timeout=90, start_new_session=True)
+                line = [l for l in p.stdout.splitlines() if l.startswith('PWV-RESULT ')]
+                out = json.loads(line[-1][11:]) if line else {'harness_error': 'no result line (rc %s)' % p.returncode}
+            except subprocess.TimeoutExpired:
+                out = {'harness_error': 'timeout'}
+            got = (out.get('has_error'), out.get('result'), out.get('error'))
+            bad = None
+            if out.get('harness_error'):
+                bad = ('main-script-run-fails', out)
+            elif out.get('wait') is not True:
+                bad = ('wait-does-not-return-true', out)
+            elif got != expect[mode]:
+                bad = ('wrong-outcome', {'got': list(got), 'direct_call': list(expect[mode])})
+            ctx.outcome('%s:main-script:%s' % (kind, bad[0] if bad else 'ok'))
+            if bad:
+                ctx.violation('SEQ/%s/main-script-%s/%s' % (kind, mode, bad[0]), {'kind': kind, 'mode': mode, 'defined_in': '__main__'}, bad[1],
+                              'same outcome as the direct call', engine='SEQ')
 
 
 def run(ctx):
@@ -126,6 +158,7 @@ def run(ctx):
             size = c['what'] if not c['what'].startswith('value:b') else ('value:bytes>pipe-buffer' if c['args'][0] in ('b208k1', 'b1m', 'b4m') else 'value:bytes')
             sig = 'SEQ/%s/%s/%s' % (c['kind'], size, bad[0])
             ctx.violation(sig, {k: v for k, v in c.items() if k != 'count_file'}, bad[1], 'same outcome as the direct call', engine='SEQ')
+    main_script_part(ctx)
     ctx.sample({'case': {k: v for k, v in cs[5].items() if k != 'count_file'}, 'script': jobs[5]['script']})
     ctx.sample({'case': {k: v for k, v in cs[-1].items() if k != 'count_file'}})
     ctx.extra['cases'] = len(cs)
